@@ -6,6 +6,7 @@
    `hdmx` = -1: no record for this ppem.  Response: `advance x0 y0 x1 y1 …` (26.6) or an error word. -/
 import FontVerif.Model.HintLoad
 import FontVerif.Model.FtLoad
+import FontVerif.Model.CffScale
 namespace FontVerif.Drv.C03Load
 open FontVerif FontVerif.Tt FontVerif.HintLoad
 
@@ -26,6 +27,12 @@ def render (r : Option (List Vec × Int)) : String :=
   match r with
   | none => "err"
   | some (p, adv) => joinInts (adv :: p.flatMap fun q => [q.x, q.y])
+
+def handleCff (cmd : String) (xs : List Int) : Option String :=
+  match cmd, xs with
+  | "sk.cffscale", [s] => some (match CffScale.skHintScale s with | some v => toString v | none => "trap")
+  | "ft.cffscale", [s] => some (toString (CffScale.ftHintScale s))
+  | _, _ => none
 
 def handle (cmd : String) (xs : List Int) : Option String :=
   match xs with
